@@ -51,7 +51,7 @@ def cases(tier, seed):
             add('-%s' % a if not a.startswith('-') else '- %s' % a, None, ('neg', k))
     # ranges
     bounds = ['0', '1', '3', '-2', '1.5', '"a"', 'true', 'nothing', '[1]', '5', '2', '10', '1e3', '-0',
-              '1e19', '2e19', '-1e19', '1e300', '-1e300', '9223372036854775807', '9223372036854775808', '-9223372036854775808', '10000001', '4294967296', '2147483648', '1e15', '9007199254740993']
+              '1e19', '2e19', '-1e19', '1e300', '-1e300', '9223372036854775807', '9223372036854775808', '-9223372036854775808', '10001000', '4294967296', '2147483648', '1e15', '9007199254740993']
     for a, b in itertools.product(bounds, bounds):
         add('[%s..%s]' % (a, b), None, ('range',))
     add('[1..10000001]', None, ('range',))
